@@ -1105,6 +1105,8 @@ func (l *Lexer) numberLiteral(startDigit rune) *token.Token {
 			}
 		case '8':
 			return l.tokenWithValue(token.INT8, lexeme.String())
+		case '\n':
+			l.incrementLine()
 		}
 		return l.lexError("invalid sized integer literal")
 	case 'u':
@@ -1128,6 +1130,8 @@ func (l *Lexer) numberLiteral(startDigit rune) *token.Token {
 			}
 		case '8':
 			return l.tokenWithValue(token.UINT8, lexeme.String())
+		case '\n':
+			l.incrementLine()
 		}
 		return l.lexError("invalid sized integer literal")
 	}
@@ -1162,6 +1166,8 @@ func (l *Lexer) numberLiteral(startDigit rune) *token.Token {
 			if l.matchChar('2') {
 				return l.tokenWithValue(token.FLOAT32, lexeme.String())
 			}
+		case '\n':
+			l.incrementLine()
 		}
 		return l.lexError("invalid sized float literal")
 	}
@@ -1945,6 +1951,8 @@ func (l *Lexer) scanNormal(afterMethodCallOperator bool) *token.Token {
 						if l.matchChar('2') {
 							return l.tokenWithValue(token.FLOAT32, lexeme.String())
 						}
+					case '\n':
+						l.incrementLine()
 					}
 					return l.lexError("invalid sized float literal")
 				}
